@@ -11,8 +11,8 @@ def check(ctx):
             for mode in MODES:
                 check_kernel(ctx, KE, fam, mode, backend, outputs=("MXX", "MYY", "mu_r", "mu_i"), rule="R1-trend-form")
     check_build_Q(ctx)
-    check_dispatch(ctx, rule_prefix="R2.", want_roles=True, kaisers=(True,))
-    check_cache_keys(ctx, rule="R3-cache-key")
+    check_dispatch(ctx, rule_prefix="R2.", want_roles=True, kaisers=(True,), roles=("x1", "x2", "starts", "L", "Q"))
+    check_cache_keys(ctx, rule="R3-cache-key", about=("basis",))
     ctx.trust("L7: x - Q Q^T x annihilates span Q; reduced QR keeps span Q = span V", "L1/L2", "E5 kernel summaries")
     ctx.assume("exact arithmetic")
     return ("Every kernel's streamed sample is compared (through the statistics it produces) with (x_c[s+n]-T_c(n))w[n], T_c in {0, segment mean, "
